@@ -21,6 +21,14 @@
 (*   stuck {c,m,n0}                          the deadline passed without a retransmission of c's oldest *)
 (*                                           unacknowledged message m (n0 receptions when the harness    *)
 (*                                           began to wait) - accepted only if the log agrees             *)
+(*   resume {c}                              c's connection ended (or was taken over) and c is connected again with      *)
+(*                                           cleanSession=false: its session is resumed - every subscription as it was    *)
+(*                                           (nothing was unacknowledged; packet ids start afresh on the new connection)  *)
+(*   indep {c}                               while c is stalled (not reading, its outbound queue full): the harness has    *)
+(*                                           waited for every delivery owed to OTHER clients for messages c holds no        *)
+(*                                           matching subscription for (deadline >= 20s, and no fan-out goroutine left      *)
+(*                                           that is not blocked) - independence clause: they must have arrived, or a       *)
+(*                                           `miss` has been certified                                                      *)
 (*   settle                                  the harness has drained all deliveries (goroutine and   *)
 (*                                           ping barriers) and has waited (generous deadline) for    *)
 (*                                           the retransmission of every session's oldest             *)
@@ -118,18 +126,30 @@ TStuck == /\ IsEvent("stuck")
           /\ viol' = viol \cup {<<"stuck", E.c, E.m>>}
           /\ UNCHANGED <<dvars, owed, mayget, waived, pidm, upacked>>
 
+(* (IF instead of a disjunction: TLC expands a disjunction under a quantifier of an action into branches - one per   *)
+(* owed copy that was reported missing AND arrived later - and validation time doubles with each of them)             *)
+Arrived(x) == IF x[2] \in SeqSet(got[x[1]]) THEN TRUE ELSE <<"miss", x[1], x[2]>> \in viol
 TSettle == /\ IsEvent("settle")
-           /\ \A x \in owed \ waived : x[2] \in SeqSet(got[x[1]]) \/ <<"miss", x[1], x[2]>> \in viol       \* Fanout
+           /\ \A x \in owed \ waived : Arrived(x)                                                          \* Fanout
            /\ \A c \in Clients : Unacked(c) # <<>> =>                                   \* retransmitted until acknowledged
-                  (Count(got[c], Head(Unacked(c))) >= 2 \/ <<"stuck", c, Head(Unacked(c))>> \in viol)
+                  (IF Count(got[c], Head(Unacked(c))) >= 2 THEN TRUE ELSE <<"stuck", c, Head(Unacked(c))>> \in viol)
            /\ MessageReachesPipeline                                                  \* client PUBLISH -> backend pipeline
            /\ \A i \in 1..Len(up) : MustAck(i) => i \in upacked                      \* ... and PUBACK with the same id
            /\ UNCHANGED <<dvars, owed, mayget, waived, pidm, viol, upacked>>
 
+(* independence: what is owed to the other clients for messages the stalled client E.c is not routed is delivered while it stays away *)
+TIndep == /\ IsEvent("indep")
+          /\ \A x \in owed \ waived : (x[1] # E.c /\ <<E.c, x[2]>> \notin mayget) => Arrived(x)
+          /\ UNCHANGED <<dvars, owed, mayget, waived, pidm, viol, upacked>>
+(* a persistent session resumed on a new connection: the subscriptions are what they were *)
+TResume == /\ IsEvent("resume") /\ Resume(E.c)
+           /\ pidm' = {x \in pidm : x[1] # E.c}
+           /\ Keep /\ UNCHANGED <<msgs, got, ackd, up, piped, upack, byst, owed, mayget, waived, viol, upacked>>
+
 (* a scenario may end early only after a violation the contract has certified *)
 TAbort == IsEvent("abort") /\ viol # {} /\ UNCHANGED <<dvars, owed, mayget, waived, pidm, viol, upacked>>
 
-TNext == TMiss \/ TStuck \/ TReset \/ TSub \/ TUnsub \/ TPub \/ TRecv \/ TAck \/ TCPub \/ TPipe \/ TCPuback \/ TByst \/ TSettle \/ TAbort
+TNext == TMiss \/ TStuck \/ TIndep \/ TResume \/ TReset \/ TSub \/ TUnsub \/ TPub \/ TRecv \/ TAck \/ TCPub \/ TPipe \/ TCPuback \/ TByst \/ TSettle \/ TAbort
 TInit == /\ l = 1 /\ owed = {} /\ mayget = {} /\ waived = {} /\ pidm = {} /\ viol = {} /\ upacked = {}
          /\ infl = [c \in Clients |-> [p \in PidsUp |-> 0]] /\ byst = {} /\ rl = [c \in Clients |-> 0]
          /\ subs = {} /\ n = 0 /\ last = [a |-> "init"]
